@@ -11,35 +11,126 @@ from __future__ import annotations
 import ast
 
 from ..callgraph import CallGraph
-from ..effects import Shared, stores_in
+from ..effects import Shared, bound_arg, stores_in
 from ..pm import dotted, unparse, walk_no_nested
 from ..report import Ctx
 
 ROOTS = ["RTFDocument.rtf_encode"]
 
 
-def idempotent_registration(ctx: Ctx, cg: CallGraph, st) -> tuple[bool, str]:
-    """`cls._strategies[name] = strategy_cls` in a classmethod whose every call site passes
-    (constant string, class name): re-registration writes the same value -> benign race."""
+def _literal_of(pm, caller, e: ast.AST, depth: int = 4):
+    """the literal expression a name stands for: single local assignment or module-level constant (following imports)"""
+    from ..astmatch import assignments
+    while isinstance(e, ast.Name) and depth > 0:
+        depth -= 1
+        asg = assignments(caller.node).get(e.id, [])
+        if len(asg) == 1 and not (isinstance(asg[0], ast.Constant) and isinstance(asg[0].value, str) and asg[0].value.startswith("<")):
+            e = asg[0]
+            continue
+        if asg:
+            return e
+        r = pm.resolve(caller.module, e.id)
+        if r and r[0] == "value":
+            e = r[1][1]
+            continue
+        break
+    return e
+
+
+def _loop_binding(node: ast.AST, stop: ast.AST, name: str):
+    """(loop/comprehension that binds `name` around `node`, index of `name` in the target tuple or None)"""
+    p = getattr(node, "_parent", None)
+    while p is not None and p is not stop:
+        gens = [p] if isinstance(p, ast.For) else (list(p.generators) if isinstance(p, (ast.ListComp, ast.SetComp, ast.GeneratorExp, ast.DictComp)) else [])
+        for g in gens:
+            t = g.target
+            if isinstance(t, ast.Name) and t.id == name:
+                return g, None
+            if isinstance(t, (ast.Tuple, ast.List)):
+                for i, e in enumerate(t.elts):
+                    if isinstance(e, ast.Name) and e.id == name:
+                        return g, i
+        p = getattr(p, "_parent", None)
+    return None, None
+
+
+def _const_pairs_at(pm, caller, call: ast.Call, key_e: ast.AST, val_e: ast.AST):
+    """the (constant name, class) pairs one call site can register, or a string saying why they cannot be enumerated"""
+    def one(k, v):
+        k = _literal_of(pm, caller, k)
+        if not (isinstance(k, ast.Constant) and isinstance(k.value, str)):
+            return f"key `{unparse(k)}` is not a constant name"
+        v = _literal_of(pm, caller, v)
+        if not isinstance(v, ast.Name):
+            return f"value `{unparse(v)}` is not a class name"
+        r = pm.resolve(caller.module, v.id)
+        if not (r and r[0] == "class"):
+            return f"{v.id} in {caller.short} is not a class"
+        return (k.value, r[1].name)
+
+    if isinstance(key_e, ast.Name) and isinstance(val_e, ast.Name):
+        gk, ik = _loop_binding(call, caller.node, key_e.id)
+        gv, iv = _loop_binding(call, caller.node, val_e.id)
+        if gk is not None and gk is gv and ik is not None and iv is not None and ik != iv:
+            it = gk.iter
+            while isinstance(it, ast.Call) and isinstance(it.func, ast.Name) and it.func.id in ("list", "tuple", "iter") and len(it.args) == 1:
+                it = it.args[0]
+            rows = None
+            if isinstance(it, ast.Call) and isinstance(it.func, ast.Attribute) and it.func.attr == "items" and not it.args:
+                d = _literal_of(pm, caller, it.func.value)
+                if isinstance(d, ast.Dict) and all(k is not None for k in d.keys) and (ik, iv) in ((0, 1), (1, 0)):
+                    rows = [[k, v] for k, v in zip(d.keys, d.values)]
+            else:
+                lit = _literal_of(pm, caller, it)
+                if isinstance(lit, (ast.Tuple, ast.List)) and all(isinstance(r, (ast.Tuple, ast.List)) and len(r.elts) > max(ik, iv) for r in lit.elts):
+                    rows = [r.elts for r in lit.elts]
+            if rows is None:
+                return f"GAP:loop over `{unparse(gk.iter)[:60]}` in {caller.short} is not a literal table of pairs"
+            out = []
+            for r in rows:
+                pr = one(r[ik], r[iv])
+                if isinstance(pr, str):
+                    return pr
+                out.append(pr)
+            return out
+        if gk is not None or gv is not None:
+            return f"call {unparse(call)[:60]} in {caller.short}: key and value come from different loops"
+    pr = one(key_e, val_e)
+    return pr if isinstance(pr, str) else [pr]
+
+
+def idempotent_registration(ctx: Ctx, cg: CallGraph, st) -> tuple[bool | None, str]:
+    """Role: a registration `SHARED[key] = value` (or SHARED.setdefault(key, value)) whose key and value are the
+    function's own parameters.  Verified: every call site passes (constant string, class) pairs - directly or by
+    looping over a constant table of pairs - and no name is paired with two classes; then re-registration writes the
+    value that is already there (benign race, no history).  Returns (True, why) / (False, why); (None, why) when the
+    store has the registration shape but the registered pairs cannot be enumerated (analysis gap)."""
+    from ..astmatch import resolve
     fi = st.fi
-    if not (st.how == "item" and isinstance(st.node, ast.Assign)):
-        return False, "not a plain item assignment"
-    params = [a.arg for a in fi.node.args.args]
-    tgt = st.node.targets[0]
-    if not (isinstance(tgt, ast.Subscript) and isinstance(tgt.slice, ast.Name) and tgt.slice.id in params
-            and isinstance(st.node.value, ast.Name) and st.node.value.id in params):
+    key_e = val_e = None
+    if st.how == "item" and isinstance(st.node, ast.Assign) and len(st.node.targets) == 1 and isinstance(st.node.targets[0], ast.Subscript):
+        key_e, val_e = st.node.targets[0].slice, st.node.value
+    elif st.how in ("mutator:setdefault", "mutator:__setitem__") and isinstance(st.node, ast.Call) and len(st.node.args) == 2 and not st.node.keywords:
+        key_e, val_e = st.node.args
+    if key_e is None:
+        return False, "not a plain keyed registration"
+    a = fi.node.args
+    params = [x.arg for x in list(a.posonlyargs) + list(a.args) + list(a.kwonlyargs)]
+    key_e, val_e = resolve(key_e, fi.node), resolve(val_e, fi.node)
+    if not (isinstance(key_e, ast.Name) and key_e.id in params and isinstance(val_e, ast.Name) and val_e.id in params and key_e.id != val_e.id):
         return False, "key/value are not the function's parameters"
     sites = cg.callers_of(fi.short)
     if not sites:
         return True, "no call sites"
     pairs = set()
     for caller, call in sites:
-        if len(call.args) != 2 or not isinstance(call.args[0], ast.Constant) or not isinstance(call.args[1], ast.Name):
-            return False, f"call {unparse(call)} in {caller.short} does not pass a constant name and a class"
-        r = ctx.pm.resolve(caller.module, call.args[1].id)
-        if not (r and r[0] == "class"):
-            return False, f"{unparse(call.args[1])} in {caller.short} is not a class"
-        pairs.add((call.args[0].value, r[1].name))
+        k, v = bound_arg(call, fi, key_e.id), bound_arg(call, fi, val_e.id)
+        if k is None or v is None:
+            return None, f"call {unparse(call)[:60]} in {caller.short}: arguments cannot be matched to ({key_e.id}, {val_e.id})"
+        got = _const_pairs_at(ctx.pm, caller, call, k, v)
+        if isinstance(got, str):
+            return (None, got[4:]) if got.startswith("GAP:") else (False, got)
+        pairs.update(got)
     names = [p[0] for p in pairs]
     if len(set(names)) != len(names):
         return False, f"the same name is registered with different classes: {sorted(pairs)}"
@@ -89,8 +180,10 @@ def check(ctx: Ctx) -> None:
     ctx.extra["store_sites_classified"] = n_stores
     for fi, st, tgt in writes:
         ok, why = idempotent_registration(ctx, cg, st)
-        ctx.instance("R15.1", st.where, f"{fi.short}: {st.how} write to shared {tgt}: `{st.text()}` -> {'idempotent: ' + why if ok else 'RACE'}")
-        if not ok:
+        ctx.instance("R15.1", st.where, f"{fi.short}: {st.how} write to shared {tgt}: `{st.text()}` -> {'idempotent: ' + why if ok else 'RACE' if ok is False else 'undecided'}")
+        if ok is None:
+            ctx.gap("R15.1", f"{fi.short}: registration `{st.text()}` into shared {tgt}: {why}")
+        elif not ok:
             ctx.violation("R15.1", fi.short, f"{st.how} {tgt}", st.where,
                           f"{fi.short} (reachable from rtf_encode) writes process-shared state {tgt}: `{st.text()}`; "
                           "two threads encoding different documents read each other's value")
